@@ -28,18 +28,29 @@ EXC_CODE = {'ValueError': 1, 'TypeError': 2, 'IndexError': 3, 'KeyError': 4, 'Ov
 
 RULE = ('exhaustive small scope on real (in-memory) HDF5 files: (A) every rename mapping (each column kept or sent to one '
         'of {a,a_,a__,b,x}, plus unknown keys) on column sets of size 2..4 drawn from {a,a_,a__,b} in several orders; '
+        '(A2) creation order x mapping: every ordered choice of 3 columns from {a,a_,a__,b,b_} (60 creation orders) x every '
+        'mapping of all three onto distinct names of that alphabet (60: permutations, cycles, chains, identities), dict order '
+        'rotated; 4 columns x 4 entries sampled (1200; 4000 when the tree under test differs from the recorded one; all 14400 '
+        'in the thorough tier); 4-5 columns with >= 3 entries followed by the inverse mapping, sampled; '
+        '(F) dataframe object identity: 5 frame states (never had a field / one field / emptied again / made by '
+        'require_dataframe / copied then emptied) x 16 dataset-level operations that look a frame up or hand one back x 5 '
+        'field-level continuations, run through the dataframe handle the caller kept and through ds[name] alternately, and '
+        'all pairs of those 16 operations per state; '
         '(B) every single operation with every name combination (5 field names x 5 frame references over two datasets) '
         'from two prepared states; (C) every pair of operations over a medium alphabet; (D) every triple over a small '
         'alphabet; then seeded random histories of length 4..9.  HDF5-backed cases cost ~5-10 ms each, which sizes '
-        'the bounds.  Every prefix of a history is itself checked (verdicts after every step).  Non-trivial = the '
+        'the bounds.  Every prefix of a history is itself checked (verdicts after every step, the identity verdict - a name '
+        'served before and after a step is served by the same object, and create/require_dataframe return the served object - '
+        'included; the harness keeps the first handle it obtained for every live dataframe).  Non-trivial = the '
         'history reaches a planted feature other than a plain lookup failure.')
 EXHAUSTIVE = {'quick': True, 'thorough': True}
 TRUSTED = ['h5py/HDF5 link semantics as modelled in Catalogue.v (create_group / move / del on a group; path of an open '
            'object follows H5Lmove, is None once unlinked) - exercised by this correspondence, not proved',
            'Python dict / OrderedDict insertion-order semantics (d_set / d_del in Catalogue.v)',
            'field payload I/O (data.write / data[:]) is the identity on the small integer payloads used']
-ASSUMPTIONS = ['one Session, each file opened once; operations address frames and fields by name (no stale DataFrame '
-               'objects are operated on); names do not contain "/" and are not "trash"',
+ASSUMPTIONS = ['one Session, each file opened once; operations address frames by ds[name] or by the first handle obtained for '
+               'a frame that is still served (handles of dropped frames are not operated on) and fields by name; names do not '
+               'contain "/" and are not "trash"',
                'field handles observed are those ever present in a catalogue']
 TECHNIQUE = ('Coq proof (state-machine invariant over a Gallina model of the dual Python/HDF5 catalogue) + exhaustive '
              'short-history differential correspondence against the real code on real HDF5 files')
@@ -49,7 +60,11 @@ LEVEL_TEXT = ('Theorems in coq/Props/C15.v prove, for all histories (any length,
               'reachable state), that a reopen finds the same types and data, that no operation changes the type or data '
               'of an existing field, that rename is simultaneous substitution or no change at all (the two passes of h5 '
               'moves cannot fail after the clash check; get_unique_name terminates), that handles follow a rename and '
-              'that a moved handle is invalid; the model is tied to the code by running both on the same generated '
+              'that a moved handle is invalid, that rename returns exactly when its keys are distinct columns and the resulting '
+              'names are distinct - whatever the creation order of the columns (every permutation mapping is carried out) - and '
+              'that no operation re-binds a dataframe name that stays bound to another object (require_dataframe and lookups '
+              'never change a binding and hand back the catalogued object, empty frames included); the model is tied to the code '
+              'by running both on the same generated '
               'histories on real HDF5 files and comparing every intermediate observation.')
 LEVEL_NOTE = ('Trusted: Coq kernel, extraction, harness, the h5py link semantics written into the model. The code as '
               'found is refuted by vm_compute witnesses (F-C15a, F-C15b) replayed on the real code. The observation-level '
